@@ -146,5 +146,3 @@ Proof.
   - intros E; inversion E; subst; simpl. repeat split; auto. clear. induction (shells s); constructor; auto using grows_refl.
 Qed.
 End Inv.
-Print Assumptions C03_rows.
-Print Assumptions C12_step.
